@@ -41,7 +41,7 @@ type Profile struct {
 
 var HostileKeys = []string{"a", "b", "c", "d", "", "a/b", "m~n", "~", "/", "~1", "~0", "0", "1", "-1", "01", "x<y", "k&v", " ", "é", "😀", `q"r`, `b\s`, "\n", "-"}
 var PlainKeys = []string{"a", "b", "c", "d", "e", "f", "k", "0", "1", "zz"}
-var MergeKeys = []string{"a", "b", "c", "d", "x<y", ""}
+var MergeKeys = []string{"a", "b", "c", "d", "x<y", "", "a~1b", "~0"}
 
 var HostileStrings = []string{"", "s", "x<y>&z", "\xe2\x80\xa8\xe2\x80\xa9", "é😀", `q"r\`, "\b\f\n\r\t\x01", "A", "/", "~", "null", "0", "a b", "\u007f", "𝄞"}
 var PlainStrings = []string{"", "s", "A", "hello world", "null", "0", "é", "😀", "a b c"}
@@ -451,7 +451,7 @@ func Mutate(r *rand.Rand, in string, other string) string {
 				b = append(b, w...)
 			}
 		case 9: // break an escape or literal
-			repl := []string{`\`, `\u12`, `\x`, "tru", "nul", "-", "1e", "01", ".5", `"`}[r.Intn(10)]
+			repl := []string{`\`, `\u12`, `\x`, "tru", "nul", "-", "1e", "01", ".5", `"`, `\'`, `\v`, `'`, `\0`}[r.Intn(14)]
 			b = append(b[:i:i], append([]byte(repl), b[i:]...)...)
 		}
 		if len(b) > 1<<16 {
